@@ -233,15 +233,29 @@ Section Http.
     intros e E. rewrite E in H. eapply H. reflexivity.
   Qed.
 
+  (* ---- BasicHttpServer with the request handler as an input *)
+  Variable handler : http_msg -> hout.
+  Local Notation ph := (httpdh_gen utf8_ok req_first_ok handler).
+
+  Lemma httpdh_stable : forall s x m s' r y, ph true s x = Frame m s' r -> ph true s (x ++ y) = Frame m s' (r ++ y).
+  Proof. exact (map_stable _ _ _ (pd true) _ httpd_stable). Qed.
+  Lemma httpdh_progress : forall strict s x m s' r, ph strict s x = Frame m s' r -> (length r < length x)%nat.
+  Proof. intro strict. exact (map_progress _ _ _ (pd strict) _ (httpd_progress strict)). Qed.
+  Lemma httpdh_failpfx : forall s x y e, ph true s x = Fail e -> exists e', ph true s (x ++ y) = Fail e'.
+  Proof. exact (map_failpfx _ _ _ (pd true) _ httpd_failpfx). Qed.
+  Lemma httpdh_agree : forall s x, (forall e, ph true s x <> Fail e) -> ph false s x = ph true s x.
+  Proof. exact (map_agree (pd false) (pd true) _ httpd_agree). Qed.
+
   (* ---- the loops as written vs. the drain shape *)
 
-  (* BasicHttpServer.data_received: what run reports as delivered is what the handler got;
-     where run fails, the server answered 500 and emptied its buffer. *)
+  (* BasicHttpServer.data_received: what run reports as delivered is what the handler got, with
+     the answer written for it (also when the handler raised: 500 and the rest is kept);
+     where run fails (the PARSER raised), the server answered 500 and emptied its buffer. *)
   Lemma httpd_loop_run : forall fuel buf, (length buf <= fuel)%nat ->
-    httpd_loop utf8_ok req_first_ok fuel buf =
-    match drain (httpd_p1 utf8_ok req_first_ok) fuel tt buf with
-    | Out ms _ r => (map SReq ms, r)
-    | Failed ms e => (map SReq ms ++ [SErr500 e], [])
+    httpd_loop utf8_ok req_first_ok handler fuel buf =
+    match drain (httpdh_p1 utf8_ok req_first_ok handler) fuel tt buf with
+    | Out ms _ r => (map (fun ma => SReq (fst ma) (snd ma)) ms, r)
+    | Failed ms e => (map (fun ma => SReq (fst ma) (snd ma)) ms ++ [SErr500 e], [])
     | OutOfFuel => ([], buf)
     end.
   Proof.
@@ -249,9 +263,12 @@ Section Http.
     - destruct buf; [reflexivity|simpl in Hl; lia].
     - destruct buf as [|c t]; [reflexivity|].
       cbn [httpd_loop]. rewrite drain_S. set (buf := c :: t) in *.
-      assert (Epd : httpd_p1 utf8_ok req_first_ok tt buf = match parse_request utf8_ok req_first_ok buf with
-                                | RNeed | RSkip _ => Need | RFail e => Fail e | RFrame m rest => Frame m tt rest end)
-        by reflexivity.
+      assert (Epd : httpdh_p1 utf8_ok req_first_ok handler tt buf =
+                    match parse_request utf8_ok req_first_ok buf with
+                    | RNeed | RSkip _ => Need | RFail e => Fail e
+                    | RFrame m rest => Frame (m, answer_of (handler m)) tt rest end).
+      { unfold httpdh_p1, httpdh_gen, httpd_gen, parse_request.
+        destruct (parse_request_gen utf8_ok req_first_ok false buf); reflexivity. }
       rewrite Epd. clear Epd. unfold httpd_next.
       assert (Ebb : bytes_beq buf buf = true)
         by (apply (list_beq_eq N.eqb); [intros; apply N.eqb_eq|reflexivity]).
@@ -263,8 +280,8 @@ Section Http.
       + pose proof (pr_frame_progress false _ _ _ P) as Hp.
         replace (bytes_beq r0 buf) with false.
         * rewrite IH by lia.
-          destruct (drain (httpd_p1 utf8_ok req_first_ok) f tt r0) as [ms [] r1|ms e|] eqn:D; try reflexivity.
-          exfalso. revert D. apply (drain_fuel _ _ _ _ (httpd_p1 utf8_ok req_first_ok) (httpd_progress false)). lia.
+          destruct (drain (httpdh_p1 utf8_ok req_first_ok handler) f tt r0) as [ms [] r1|ms e|] eqn:D; try reflexivity.
+          exfalso. revert D. apply (drain_fuel _ _ _ _ (httpdh_p1 utf8_ok req_first_ok handler) (httpdh_progress false)). lia.
         * symmetry. apply not_true_is_false. intro E.
           apply (list_beq_eq N.eqb) in E; [|intros; apply N.eqb_eq]. subst r0. lia.
   Qed.
